@@ -12,7 +12,6 @@ import (
 	"strings"
 	"time"
 
-	"github.com/taskctl/taskctl/pkg/runner"
 	"github.com/taskctl/taskctl/pkg/task"
 	"github.com/taskctl/taskctl/pkg/variables"
 	"mvdan.cc/sh/v3/expand"
@@ -99,13 +98,12 @@ func VerifC18Env() {
 	taskName := verifString("task.name")
 	userVar := verifString("variable.value")
 
-	r := &TaskRunner{
-		compiler:    runner.NewTaskCompiler(),
-		variables:   variables.NewVariables(),
-		env:         variables.FromMap(pipelineEnv),
-		killTimeout: 2 * time.Second,
+	// the task runner is built the way app.go builds it for a job
+	r, nerr := NewTaskRunner(nil, WithEnv(variables.FromMap(pipelineEnv)), WithKillTimeout(2*time.Second))
+	if nerr != nil || r == nil {
+		verifUnsupported("NewTaskRunner failed")
+		return
 	}
-	r.ctx = &vTaskCtx{}
 	changes := 0
 	r.SetOnTaskChange(func(t *task.Task) { changes++ })
 
